@@ -72,6 +72,36 @@ def regen(cfgs):
         notes.append("gen_lean failed: " + out[-500:])
     return notes
 
+# ------------------------------------------------------------------ source fingerprints
+FP_FILES = ["src/%s" % f for f in ("parse.rs", "number.rs", "lemire.rs", "bellerophon.rs", "slow.rs", "rounding.rs", "mask.rs",
+                                    "extended_float.rs", "num.rs", "bigint.rs", "stackvec.rs", "heapvec.rs", "table.rs",
+                                    "table_lemire.rs", "table_small.rs", "table_bellerophon.rs", "libm.rs", "lib.rs", "fpu.rs")] + \
+           ["examples/simple.rs", "fuzz/fuzz_targets/parse.rs", "tests/integration_tests.rs", "etc/correctness/test-parse-golang/main.rs", "Cargo.toml"]
+
+def _strip_rust(text):
+    """drop comments and all whitespace (a re-formatting or a comment edit is not a code change)"""
+    text = re.sub(r"/\*.*?\*/", "", text, flags=re.S)
+    text = re.sub(r"//[^\n]*", "", text)
+    return re.sub(r"\s+", "", text)
+
+def source_fingerprints():
+    out = {}
+    for f in FP_FILES:
+        p = os.path.join(REPO, f)
+        if os.path.exists(p):
+            out[f] = hashlib.sha256(_strip_rust(open(p, encoding="utf-8", errors="replace").read()).encode()).hexdigest()[:16]
+    return out
+
+def changed_sources():
+    """files whose code differs from the tree the model was last validated against (bin/source_fingerprints.json).
+    Used ONLY to deepen the search (more rounds), never as a verdict."""
+    p = os.path.join(VERIF, "bin", "source_fingerprints.json")
+    if not os.path.exists(p):
+        return []
+    ref = json.load(open(p))
+    cur = source_fingerprints()
+    return sorted(f for f in set(ref) | set(cur) if ref.get(f) != cur.get(f))
+
 # ------------------------------------------------------------------ lean
 ALLOWED_AXIOMS = {"propext", "Classical.choice", "Quot.sound"}
 
